@@ -117,6 +117,7 @@ class Exec:
         self.used_summaries = {}
         self.used_bodies = {}
         self.paths = 0
+        self.extra_paths = []          # panic paths split off inside summaries
 
     def find(self, rx):
         c = [n for n in self.fns if re.search(rx, n)]
@@ -280,6 +281,15 @@ class Exec:
             name = fr['fn'].name + '::promoted[' + m.group(1) + ']'
             if name in self.fns:
                 return self.eval_const_body(st, self.fns[name])
+        c = op.const.strip()
+        if re.match(r'^[A-Za-z_][\w:]*$', c) and not c.startswith('fn '):
+            # a named constant (`const json_parser::MAX_DIGITS`): its initialiser is a MIR body of the same name
+            cands = [n for n in self.fns if n == c or n.endswith('::' + c) or c.endswith('::' + n)]
+            if len(cands) == 1 and not self.fns[cands[0]].params:
+                try:
+                    return self.eval_const_body(st, self.fns[cands[0]])
+                except Exception:
+                    pass
         return self.const(st, op.const, ty_hint)
 
     def eval_const_body(self, st, fn):
@@ -454,6 +464,8 @@ class Exec:
                     work.append(s)
                 else:
                     done.append(s)
+            if self.extra_paths:
+                done.extend(self.extra_paths); self.extra_paths = []
         return done
 
     def step_block(self, st):
@@ -778,7 +790,46 @@ def sum_unwrap_or_default_int(ex, st, func, args, dest_ty):
     dflt = args[1].t if len(args) > 1 else z3.BitVecVal(0, w)
     return [(st, BV(z3.If(d == 1, p.t, dflt), sg))]
 
+def sum_unwrap(ex, st, func, args, dest_ty):
+    """Option::unwrap / expect, Result::unwrap / expect: the payload, or a panic path when there is none"""
+    v = args[0]
+    if not isinstance(v, ObjV): return None
+    is_opt = 'Option' in func.split('::<')[0]
+    d = ex.discr(st, v).t
+    good = (d == 1) if is_opt else (d == 0)
+    out = []
+    if ex.feasible(st, z3.Not(good)):
+        s2 = st.clone(); s2.pc.append(z3.Not(good)); s2.status = 'panic'
+        s2.notes.append(('called `Option::unwrap()` on a `None` value' if is_opt else 'called `Result::unwrap()` on an `Err` value') + ' @' + st.frames[-1]['fn'].name)
+        ex.extra_paths.append(s2)
+    if ex.feasible(st, good):
+        st.pc.append(good)
+        out.append((st, ex.load(st, v.oid, ('f', 'Some' if is_opt else 'Ok', 0), 'opaque')))
+    return out
+
+def sum_int_minmax(ex, st, func, args, dest_ty):
+    """Ord::min / max, cmp::min / max on machine integers"""
+    m = re.search(r'<(\w+) as Ord>::(min|max)$|cmp::(min|max)::<(\w+)>$', func)
+    if not m: return None
+    ty = m.group(1) or m.group(4); op = m.group(2) or m.group(3)
+    if ty not in INT or not all(isinstance(a, BV) for a in args[:2]): return None
+    w, sg = INT[ty]
+    a, b = args[0].t, args[1].t
+    lt = (a < b) if sg else z3.ULT(a, b)
+    return [(st, BV(z3.If(lt, a, b) if op == 'min' else z3.If(lt, b, a), sg))]
+
+def sum_str_len_const(ex, st, func, args, dest_ty):
+    """str::len of a string literal"""
+    a = args[0]
+    if isinstance(a, Const) and re.match(r'^"', a.text or ''):
+        from .fmt import unescape_bytes
+        return [(st, BV(z3.BitVecVal(len(unescape_bytes(a.text)), 64)))]
+    return None
+
 GENERIC = [
+    (r'^<\w+ as Ord>::(min|max)$|^(std|core)::cmp::(min|max)::<\w+>$', sum_int_minmax),
+    (r'^core::str::<impl str>::len$', sum_str_len_const),
+    (r'^(std::option::)?Option::<.*>::(unwrap|expect)$|^(std::result::)?Result::<.*>::(unwrap|expect)$', sum_unwrap),
     (r'^<Option<.*> as Try>::branch$|^<std::option::Option<.*> as Try>::branch$', sum_try_branch_option),
     (r'^<Option<.*> as FromResidual<Option<.*>>>::from_residual$|^<std::option::Option<.*> as FromResidual<.*Option<.*>>>::from_residual$', sum_from_residual_option),
     (r'^Result::<.*>::ok$|^Result::<.*>::err$|^std::result::Result::<.*>::(ok|err)$', sum_result_ok),
